@@ -120,6 +120,22 @@ class C08(core.Prop):
                         ["write", 1, dev["name"], vn, [[names[i], [[], ""]]]]]
             cases.append({"devices": [dev], "clients": clients, "ops": ops, "seed": k, "sizes": [5, 0, 0, 7, 0]})
             k += 1
+        # the last read of a message returns a full 1024 bytes (nothing in the read size says "more is coming")
+        for n in ([760, 1500, 3000] if tier == "quick" else [700, 760, 1000, 1500, 2200, 3000, 5000, 20000]):
+            dev = all_on(drvgen.gen_definition(rng, "DEV0", depth=1, kinds=["BLOB", "Text"]))
+            vecs = drvgen.all_vectors(dev)
+            bl = [vn for vn in sorted(vecs) if vecs[vn][1]["kind"] == "BLOB"]
+            if not bl:
+                continue
+            vn = bl[0]
+            names = [e["name"] for e in vecs[vn][1]["elements"]]
+            clients = [{"kind": "net", "up": "tail1024", "down": "tail1024"}]
+            ops = [["handshake", 0],
+                   ["drv", 0, ["assign", vn, 0, [payload(rng, n), ".t1"]]],
+                   ["write", 0, dev["name"], vn, [[names[-1], [payload(rng, max(1, n // 3)), ".t2"]]]],
+                   ["drv", 0, ["assign", vn, 0, [payload(rng, n + 1), ".t3"]]]]
+            cases.append({"devices": [dev], "clients": clients, "ops": ops, "seed": k, "sizes": [n, n // 3, n + 1]})
+            k += 1
         # two payloads back to back on one connection, the first longer than any transport slice
         for n in ([70000, 200000] if tier == "quick" else [66000, 70000, 131073, 200000, 500000, 1048576]):
             dev = all_on(drvgen.gen_definition(rng, "DEV0", depth=1, kinds=["BLOB"]))
